@@ -40,6 +40,7 @@ package criteria_ordering
 //@   ensures [permutation] result != nil && fresh(result) && fresh(*result) && model.rearranged(*result, *criteria)
 //@   loop 1 invariant [ctx] fresh(copied) && len(copied) == criteriaCount && criteriaCount == len(*criteria) && i < criteriaCount
 //@   loop 1 invariant [perm] model.rearranged(copied, *criteria)
+//@   loop 1 hint [position_i_is_swapped_with_the_integer_part_of_a_draw_times_i] exists u real :: 0.0 <= u && u < 1.0 && j == trunc(u * real(head(i)))
 
 // The weakest-by-probability resolver: drawing weights are proved (importance shifted so that the smallest is at least 1, then
 // inverted: smallest shifted importance / shifted importance, so a less important criterion gets the larger weight); the
